@@ -20,6 +20,41 @@ def nested(rng):
     return "proc main() { var x: int; var a: array [2] of array [2] of int; %s %s %s a%s := 1; }" % (blocks, ifs, "while (1 < 2) " * d + ";", "[0]" * d)
 
 
+KEYWORDS = {"proc", "type", "var", "if", "else", "while", "array", "of", "ref", "int"}
+
+
+def clash(rng):
+    """a syntactically valid program whose names collide: 1-3 identifiers are merged into others everywhere (redeclared procedures and
+    types, locals and parameters named like globals or like each other), and half of the time a shortened copy of a procedure
+    (same name, same parameters, empty or one-line body) or of a type declaration is appended as the last declaration of the file"""
+    import re
+    P = gen.generate(rng.getrandbits(32), size=rng.choice([1, 2, 3, 4]), depth=rng.choice([1, 2]), typed=rng.random() < .7)
+    text = layout.layout(P, rng, rng.choice(["random", "spaced", "lines"]), rng.choice(["\n", "\r\n", "\n"]))
+    for _ in range(rng.randint(0, 3)):
+        words = sorted(set(re.findall(r"(?<![\w'])[A-Za-z_]\w*", re.sub(r"//[^\n]*", "", text))) - KEYWORDS)
+        if len(words) < 2: break
+        a, b = rng.sample(words, 2)
+        text = re.sub(r"(?<![\w'])%s(?!\w)" % re.escape(a), b, text)
+    if rng.random() < .6:
+        heads = re.findall(r"proc\s+\w+\s*\([^)]*\)", re.sub(r"//[^\n]*", "", text))
+        types = re.findall(r"type\s+\w+\s*=[^;]*;", re.sub(r"//[^\n]*", "", text))
+        if heads and (not types or rng.random() < .7):
+            stripped = re.sub(r"//[^\n]*", "", text)
+            h = rng.choice(heads)
+            i = stripped.find(h); j = stripped.find("proc", i + 4); seg = stripped[i:j if j > 0 else len(stripped)]
+            names = re.findall(r"var\s+(\w+)", seg) + re.findall(r"(?:\(|,)\s*(?:ref\s+)?(\w+)\s*:", h)
+            name = re.match(r"proc\s+(\w+)", h).group(1)
+            v = rng.choice(names) if names else "x"
+            body = rng.choice(["", " %s := 1; " % v, " %s := %s; " % (v, rng.choice(names) if names else "1"), " var q: int; q := %s; " % v, " %s(%s); " % (name, v)])
+            head = h if rng.random() < .5 else "proc %s()" % name
+            text = text.rstrip() + "\n" + head + " {" + body + "}" + rng.choice(["", "\n"])
+        elif types:
+            t = rng.choice(types)
+            if rng.random() < .5: t = re.sub(r"type\s+(\w+)", lambda mm: "proc %s()" % mm.group(1), t.split("=")[0]) + " { }"
+            text = text.rstrip() + "\n" + t + rng.choice(["", "\n"])
+    return text
+
+
 def hostile_text(rng):
     t = _hostile_text(rng)
     if rng.random() < .06: t = "\ufeff" + t          # a byte order mark at the start of the document
@@ -30,6 +65,7 @@ def _hostile_text(rng):
     c = rng.random()
     if c < .3: return soup(rng, rng.choice([0, 1, 3, 10, 40, 150]))
     if c < .38: return nested(rng)
+    if c < .5: return clash(rng)
     # a valid program with 1-4 random splices
     P = gen.generate(rng.getrandbits(32), size=rng.choice([1, 2, 4]), depth=rng.choice([1, 2, 3]), typed=rng.random() < .7)
     text = layout.layout(P, rng, rng.choice(["random", "spaced", "lines"]), rng.choice(["\n", "\r\n", "\n"]))
